@@ -415,17 +415,36 @@ def write_project(d, spec):
     for k, dp in enumerate(spec['deps']):
         lines.append('dep%d = declare_dependency(compile_args: %s%s)' % (
             k, ml(dp['args']), (', include_directories: ' + inc_expr(dp['inc'])) if dp['inc'] else ''))
-    tgt = "%s('%s', 'main.c', c_args: %s, include_directories: [%s], dependencies: [%s]%s)" % (
-        spec['kind'], name, ml(spec['targs']), ', '.join('inc%d' % k for k in range(len(spec['tincs']))),
+    # generated sources: outputs of custom targets living in other directories (gen, gen2) or in the
+    # target's own directory (same), and of a generator (its output goes to the target's private dir)
+    ct = spec.get('ct', [])
+    ctdef = lambda var, out: "%s = custom_target('%s', input: '%s.in', output: '%s', command: ['cp', '@INPUT@', '@OUTPUT@'])" % (var, var, out, out)
+    for g in ('gen', 'gen2'):
+        if g in ct:
+            os.makedirs(os.path.join(src, g))
+            open(os.path.join(src, g, 'c%s.h.in' % g), 'w').write('#define X_%s 1\n' % g)
+            open(os.path.join(src, g, 'meson.build'), 'w').write(ctdef('ct_' + g, 'c%s.h' % g) + '\n')
+            lines.append("subdir('%s')" % g)
+    here = []
+    tdir = os.path.join(src, 'sub') if spec['subdir'] else src
+    if 'same' in ct:
+        open(os.path.join(tdir, 'csame.h.in'), 'w').write('#define X_same 1\n')
+        here.append(ctdef('ct_same', 'csame.h'))
+    if spec.get('generator'):
+        open(os.path.join(tdir, 'g.h.in'), 'w').write('#define X_g 1\n')
+        here.append("gen_h = generator(find_program('cp'), output: '@BASENAME@', arguments: ['@INPUT@', '@OUTPUT@']).process('g.h.in')")
+    gsrc = ''.join(', ct_' + c for c in ct) + (', gen_h' if spec.get('generator') else '')
+    tgt = "%s('%s', 'main.c'%s, c_args: %s, include_directories: [%s], dependencies: [%s]%s)" % (
+        spec['kind'], name, gsrc, ml(spec['targs']), ', '.join('inc%d' % k for k in range(len(spec['tincs']))),
         ', '.join('dep%d' % k for k in range(len(spec['deps']))),
         '' if spec['implicit'] else ', implicit_include_directories: false')
     body = 'int f(void) { return 0; }\n' if spec['kind'] != 'executable' else 'int main(void) { return 0; }\n'
     if spec['subdir']:
         lines.append("subdir('sub')")
-        open(os.path.join(src, 'sub', 'meson.build'), 'w').write(tgt + '\n')
+        open(os.path.join(src, 'sub', 'meson.build'), 'w').write('\n'.join(here + [tgt]) + '\n')
         open(os.path.join(src, 'sub', 'main.c'), 'w').write(body)
     else:
-        lines.append(tgt)
+        lines += here + [tgt]
         open(os.path.join(src, 'main.c'), 'w').write(body)
     open(os.path.join(src, 'meson.build'), 'w').write('\n'.join(lines) + '\n')
     return src
@@ -458,6 +477,19 @@ def inc_args(o):
     return out
 
 
+def custom_dir_args(spec):
+    """backends.get_custom_target_dir_include_args: one -I per distinct output dir of the custom targets among
+    the sources, in source order (ninjabackend.py:3147-3148, only with implicit include directories)"""
+    if not spec['implicit']:
+        return []
+    dirs = []
+    for c in spec.get('ct', []):
+        d = {'same': ('sub' if spec['subdir'] else '.')}.get(c, c)
+        if d not in dirs:
+            dirs.append(d)
+    return ['-I' + d for d in dirs]
+
+
 def predict_tsrc(spec, ref_args):
     """the increments of Arglist/Backend.v for a generated project; compiler-specific fixed arguments are
     taken from the reference project of the same target kind"""
@@ -471,9 +503,10 @@ def predict_tsrc(spec, ref_args):
     sub = 'sub/' if spec['subdir'] else ''
     objs = list(spec['tincs']) + [dp['inc'] for dp in spec['deps'] if dp['inc']]
     lists = lambda ls: S1.join(rl(x) for x in ls)
+    custom = custom_dir_args(spec)
     enc_obj = lambda o: S1.join(rl(x) for sb in inc_args(o) for x in sb) + '\x04'
     return [lists([base]), lists([[a] for a in fixed]), rl([a for ch in spec['proj'] for a in ch]),
-            rl(spec['glob']), rl(spec['optargs']), rl(pic), lists([dp['args'] for dp in spec['deps']]), '', '',
+            rl(spec['glob']), rl(spec['optargs']), rl(pic), lists([dp['args'] for dp in spec['deps']]), '', rl(custom),
             '\x03'.join(enc_obj(o) for o in objs), rl(spec['targs']),
             rl(['-I../src' + ('/sub' if spec['subdir'] else '')] if spec['implicit'] else []),
             rl(['-I' + ('sub' if spec['subdir'] else '.')] if spec['implicit'] else []),
@@ -487,7 +520,10 @@ def gen_cli_spec(rng, k):
     obj = lambda: {'dirs': rng.sample(names, rng.randint(1, 3)), 'system': rng.random() < 0.3}
     return {'kind': rng.choice(['executable', 'executable', 'static_library', 'shared_library']),
             'subdir': rng.random() < 0.35, 'implicit': rng.random() < 0.7,
-            'optargs': pick(0, 2), 'glob': pick(0, 2), 'proj': [pick(0, 3)], 'targs': pick(0, 4),
+            'optargs': pick(0, 2), 'glob': pick(0, 2), 'proj': [pick(0, 3)],
+            'targs': pick(0, 4) + ([rng.choice(['-I/opt/c13/t1', '-I/opt/c13/t2']) for _ in range(rng.randint(1, 2))] if rng.random() < 0.4 else []),
+            'ct': rng.choice([[], [], ['gen'], ['same'], ['gen', 'same'], ['same', 'gen2', 'gen'], ['gen2', 'gen']]),
+            'generator': rng.random() < 0.2,
             'tincs': [obj() for _ in range(rng.choice([0, 1, 1, 2]))],
             'deps': [{'args': pick(0, 3), 'inc': obj() if rng.random() < 0.6 else None} for _ in range(rng.choice([0, 1, 1, 2, 3]))]}
 
@@ -502,6 +538,14 @@ def cli_glue(ctx, thorough, built):
     empty = {'subdir': False, 'implicit': True, 'optargs': [], 'glob': [], 'proj': [[]], 'targs': [], 'tincs': [], 'deps': []}
     refs = [(os.path.join(base, 'ref-' + kind), dict(empty, kind=kind)) for kind in KINDS]
     jobs = [(os.path.join(base, 'cli%d' % k), gen_cli_spec(rng, k)) for k in range(n)]
+    fixed_shapes = [
+        dict(empty, kind='executable', subdir=True, ct=['gen'], targs=['-I/opt/c13/t1', '-DLEVEL=2'],
+             tincs=[{'dirs': ['i1'], 'system': False}]),
+        dict(empty, kind='static_library', ct=['same', 'gen'], targs=['-DA'], tincs=[{'dirs': ['i2', 'i1'], 'system': False}],
+             deps=[{'args': ['-DB'], 'inc': {'dirs': ['i3'], 'system': False}}]),
+        dict(empty, kind='executable', ct=['gen2', 'gen'], generator=True, targs=['-I/opt/c13/t2'], implicit=True),
+    ]
+    jobs += [(os.path.join(base, 'clif%d' % k), sp) for k, sp in enumerate(fixed_shapes)]
     res = pmap(cli_one, refs + jobs)
     ref = {}
     for (d, spec), r in zip(refs, res[:len(refs)]):
@@ -556,7 +600,23 @@ def cli_glue(ctx, thorough, built):
         iargs = [a for a in args if a.startswith('-I')]
         if len(set(iargs)) != len(iargs):
             fails.append({'clause': 'identical -I survive once', 'got': iargs})
+        # custom-target output dirs are added "before target-specific include directories" (ninjabackend.py:3145):
+        # every -I of the target's include_directories / internal deps and of its per-target c_args, being added
+        # later, stands in front of them
+        later_i = [x for o in (list(spec['tincs']) + [dp['inc'] for dp in spec['deps'] if dp['inc']]) if not o['system']
+                   for sb in inc_args(o) for xs in sb for x in xs] + [a for a in spec['targs'] if a.startswith('-I')]
+        implicit_i = pl(t[11]) + pl(t[12]) + pl(t[13])
+        for c in custom_dir_args(spec):
+            if c in later_i or c in implicit_i:
+                continue                     # the same directory is added again later: that occurrence survives
+            if c not in args:
+                fails.append({'clause': 'the custom target output dir is on the line', 'missing': c, 'got': iargs})
+                continue
+            late = [x for x in later_i if x in args and args.index(x) > args.index(c)]
+            if late:
+                fails.append({'clause': "the target's include_directories and per-target -I precede the custom target dirs",
+                              'custom_target_dir': c, 'behind_it': late, 'got': iargs})
         for f in fails:
             ctx.violation('C13:cli:' + json.dumps(spec, sort_keys=True), 'build.ninja ARGS break the contract for project %s: %s'
                           % (json.dumps(spec), json.dumps(f)), {'cli_project': spec, 'failure': f, 'ARGS': args})
-    ctx.extra['cli_glue'] = {'projects': n, 'configured': len(good), 'compared_with_backend_model': model is not None, 'target_kinds': shapes}
+    ctx.extra['cli_glue'] = {'projects': len(jobs), 'with_custom_target_sources': sum(1 for sp, _, _ in good if sp.get('ct')), 'configured': len(good), 'compared_with_backend_model': model is not None, 'target_kinds': shapes}
